@@ -11,7 +11,8 @@ RULE = ('exhaustive: prior file {absent, valid, corrupt} x all data-URL scripts 
         '{good, corrupt, 404} x all checksum-URL scripts of length <= 3 over {correct, checksum of the '
         'corrupt body, garbage, missing}, served by the in-process `responses` mock; thorough adds '
         'length-4 scripts, bodies of 0 B / 1 B / > 1 MiB, checksum files with and without a trailing '
-        'file name. non-trivial = at least one data request was made or the pre-check ran')
+        'file name. file name, non-hex and non-UTF-8 checksum files, size probes (HEAD) answered in seven ways; a part of the scripted space is also served by a real HTTP server on the loopback interface with Content-Encoding: gzip and with the data URL answering by a redirect. '
+        'non-trivial = at least one data request was made or the pre-check ran')
 ASSUMPTIONS = ['requests / streaming / hashlib.md5 are outside the model (bodies and checksums are tokens, '
                'hash = identity in the driver; the theorems hold for every hash function)',
                'an exhausted script answers 404, in the mock as in the model']
